@@ -17,7 +17,7 @@ UNLINTABLE_EVENTS = ("Code", "InlineMath", "DisplayMath", "Html", "InlineHtml")
 
 
 def run(ck, tier):
-    ck.rule("R-C04-units", "byte offsets never reach a char-indexed sink unconverted: tree-sitter byte ranges pass byte_spans_to_char_spans (against the very text that was parsed) before they become a Mask or index the source; in Markdown::parse no Span / slice index / shift derives from a pulldown-cmark byte range except through chars().count(); Typst spans are built from OffsetCursor.char, never .byte")
+    ck.rule("R-C04-units", "byte offsets never reach a char-indexed sink unconverted: tree-sitter byte ranges pass byte_spans_to_char_spans (against the very text that was parsed) before they become a Mask or index the source; in Markdown::parse no Span / slice index / shift derives from a pulldown-cmark byte range except through chars().count(); Typst spans are built from OffsetCursor.char, never .byte; in every front-end crate no byte length or byte position of a str/String (len, find, rfind, char_indices ...) reaches Span::new / new_with_len / push_by / pull_by or an index into the char source unless it went through chars().count() (lengths of ASCII literals excepted); the Typst translator hands the English lexer only verbatim source text (ast::Text::get, SyntaxNode::text), never an accessor that resolves escapes")
     ck.rule("R-C04-filter", "what is offered to the English lexer: Markdown::parse calls the English parser only in the Text event and never under a CodeBlock tag; Code/InlineMath/DisplayMath/Html/InlineHtml events and code-block text push only Unlintable tokens; comment/HTML node conditions test the node kind against \"comment\" / \"text\"; CommentMasker filters every allowed span through the ignore predicate")
     ck.rule("R-C04-rebase", "per-line comment parsers and Mask::parse re-base inner tokens by the start of the cut (rule instances of R-C02-rebase)")
     ck.not_decided += ["that the tree-sitter grammars classify comments correctly", "without_initiators character classes", "Literate Haskell state machine semantics", "pulldown-cmark's event ranges"]
@@ -27,6 +27,8 @@ def run(ck, tier):
     _md(ck, p, byk)
     _typst(ck, p)
     _conditions(ck, p, byk)
+    _byte_lengths(ck, p)
+    _typst_verbatim(ck, p)
     c02._rebase_cut(c05._Sub(ck, "R-C04-rebase", ""), p, byk)
     c02._rebase_acc(c05._Sub(ck, "R-C04-rebase", ""), p, byk)
 
@@ -430,3 +432,155 @@ def _conditions(ck, p, byk):
             ok = good
             detail += "; the filter closure returns !ignore_condition(text): %s" % good
         ck.decide(rule, "CommentMasker::create_mask", ok, f.span, detail)
+
+
+# ---------------------------------------------------------------------------------------------------
+FRONT = re.compile(r"^(harper_comments|harper_html|harper_literate_haskell|harper_typst|harper_tree_sitter)::|^harper_core::(parsers|mask|lexing)::")
+BYTE_SRC = re.compile(r"(core::str::\{impl\}::(len|find|rfind|floor_char_boundary|ceil_char_boundary)$|alloc::string::\{impl\}::len$|core::str::\{impl\}::(char_indices|match_indices|rmatch_indices)$|core::str::iter::\{impl\}::offset$)")
+PASS = {"min", "max", "saturating_sub", "saturating_add", "checked_sub", "checked_add", "wrapping_sub", "wrapping_add", "unwrap", "unwrap_or", "unwrap_or_default", "expect", "into", "from", "clone",
+        "add", "sub", "mul", "next", "map", "and_then", "filter", "rev", "enumerate", "iter", "into_iter", "copied", "cloned", "deref", "as_ref", "borrow", "sum", "position", "rposition", "ok", "ok_or", "branch", "start", "end"}
+SPAN_SINKS = ("harper_core::span::{impl}::new", "harper_core::span::{impl}::new_with_len", "harper_core::span::{impl}::push_by", "harper_core::span::{impl}::pull_by",
+              "harper_core::span::{impl}::pushed_by", "harper_core::span::{impl}::pulled_by")
+
+
+def _byte_lengths(ck, p):
+    rule = "R-C04-units"
+    n_fns = n_sinks = n_src = 0
+    bad = []
+    for f in sorted(p.fns.values(), key=lambda f: f.name):
+        if not FRONT.match(f.name) or f.get("kind") == "Promoted":
+            continue
+        if f.name.startswith("harper_core::parsers::markdown::"):
+            continue            # decided by the dedicated Markdown rule above (byte ranges, lock-step cursors)
+        pv = None
+        sinks = []
+        for bi, t in f.calls():
+            i = norm(inst_of(t) or "")
+            if i in SPAN_SINKS:
+                sinks += [(t, a, last(i)) for a in t["args"]]
+            elif method(t) in ("index", "index_mut", "get") and len(t["args"]) > 1 and "[char]" in f.local_tystr(place_of(t["args"][0])[0] if place_of(t["args"][0]) else 0).replace("Vec<char>", "[char]"):
+                sinks.append((t, t["args"][1], "index into the char source"))
+        # struct literal Span { start, end }
+        for b in f.blocks:
+            for sx in b["s"]:
+                if sx["k"] == "assign" and sx["rv"]["k"] == "agg" and sx["rv"].get("name", "").endswith("span::Span"):
+                    sinks += [({"ln": sx["ln"]}, o, "Span{..}") for o in sx["rv"]["ops"]]
+        if not sinks:
+            continue
+        n_fns += 1
+        n_sinks += len(sinks)
+        pv = Prov(f)
+
+        def tainted(o, depth=0, seen=None):
+            seen = set() if seen is None else seen
+            if not isinstance(o, tuple) or o in seen or depth > 14:
+                return None
+            seen.add(o)
+            k = o[0]
+            if k == "call":
+                full = norm(o[3] or o[2] or "")
+                nm = last(full)
+                if nm in ("count", "chars", "len_utf16", "byte_spans_to_char_spans"):
+                    return None
+                t = f.blocks[o[1]]["t"]
+                if BYTE_SRC.search(full):
+                    # the length of an ASCII literal is its char count as well
+                    lits = [x for x in flatten(pv.trace_operand(t["args"][0]))] if t["args"] else []
+                    if lits and all(x[0] == "const" and all(ord(c) < 128 for c in str(x[1])) for x in lits):
+                        return None
+                    return "%s at %s" % (nm, f.loc(t["ln"]))
+                if nm in PASS:
+                    for a in t["args"]:
+                        for o2 in pv.trace_operand(a):
+                            r = tainted(o2, depth + 1, seen)
+                            if r:
+                                return r
+                return None
+            if k == "field":
+                return tainted(o[1], depth + 1, seen)
+            if k == "index":
+                return tainted(o[1], depth + 1, seen)
+            if k == "bin":
+                for x in list(o[2]) + list(o[3]):
+                    r = tainted(x, depth + 1, seen)
+                    if r:
+                        return r
+            if k == "un":
+                for x in o[2]:
+                    r = tainted(x, depth + 1, seen)
+                    if r:
+                        return r
+            if k == "agg":
+                for ops in o[3]:
+                    for x in ops:
+                        r = tainted(x, depth + 1, seen)
+                        if r:
+                            return r
+            return None
+        for t, a, what in sinks:
+            for o in pv.trace_operand(a):
+                r = tainted(o)
+                if r:
+                    bad.append((keyname(p, f), f.loc(t["ln"]), what, r))
+                    break
+        for bi, t in f.calls():
+            if BYTE_SRC.search(norm(inst_of(t) or def_of(t) or "")):
+                n_src += 1
+    ck.floor(rule, "front-end functions with char-indexed sinks", n_fns, 15)
+    ck.extra["byte_length_sinks"] = n_sinks
+    ck.extra["byte_length_sources_seen"] = n_src
+    seen_k = set()
+    for fn, where, what, src in bad:
+        if fn in seen_k:
+            continue
+        seen_k.add(fn)
+        ck.refuted(rule, "bytes-as-chars:%s" % fn, where, "a byte quantity of a str/String (%s) reaches a char-indexed sink (%s) without chars().count(): every non-ASCII character before it displaces the span (and can push it past the end of the text)" % (src, what))
+    if not bad:
+        ck.proved(rule, "bytes-as-chars", "", "%d char-indexed sinks in %d front-end functions; none receives a str/String byte length or byte position (%d such sources exist in those crates, all converted or unrelated)" % (n_sinks, n_fns, n_src))
+
+
+def _typst_verbatim(ck, p):
+    rule = "R-C04-units"
+    tr = [f for f in p.fns.values() if f.name.startswith("harper_typst::typst_translator::")]
+    if not ck.anchor(rule, "harper_typst::typst_translator", tr):
+        return
+    n = 0
+    bad = []
+    for f in tr:
+        pv = None
+        for bi, t in f.calls():
+            i = inst_of(t)
+            is_pe = norm(i).endswith("typst_translator::{impl}::parse_english") or (def_of(t).endswith("parsers::StrParser::parse_str") and not f.name.endswith("::parse_english"))
+            if not is_pe or len(t["args"]) < 2:
+                continue
+            pv = pv or Prov(f)
+            n += 1
+            # where does the text come from?
+            stack = list(pv.trace_operand(t["args"][1]))
+            seen = set()
+            while stack:
+                o = stack.pop()
+                if not isinstance(o, tuple) or o in seen:
+                    continue
+                seen.add(o)
+                if o[0] == "call":
+                    full = norm(o[3] or o[2] or "")
+                    ct = f.blocks[o[1]]["t"]
+                    if full.startswith("typst_syntax::ast::") and last(full) == "get":
+                        recv = f.local_tystr(place_of(ct["args"][0])[0]) if ct["args"] and place_of(ct["args"][0]) else "?"
+                        if "ast::Text" not in recv:
+                            bad.append((keyname(p, f), f.loc(t["ln"]), recv))
+                        continue
+                    for a in ct["args"]:
+                        stack += list(pv.trace_operand(a))
+                elif o[0] in ("field", "index"):
+                    stack.append(o[1])
+                elif o[0] == "agg":
+                    for ops in o[3]:
+                        stack += list(ops)
+    ck.floor(rule, "texts handed to the English lexer by the Typst translator", n, 2)
+    if bad:
+        fn, where, recv = bad[0]
+        ck.refuted(rule, "typst-verbatim:%s" % fn, where, "the English lexer receives the *value* of a %s (escapes resolved) but its tokens are placed as if it were the source text: after the first escape every token of the literal sits left of its characters" % recv)
+    else:
+        ck.proved(rule, "typst-verbatim", "", "%d texts handed to the English lexer: all are verbatim source (ast::Text::get or SyntaxNode::text)" % n)
